@@ -4,6 +4,7 @@ import (
 	"bytes"
 	"fmt"
 	"net"
+	"sort"
 	"time"
 
 	"github.com/Jigsaw-Code/outline-sdk/transport/shadowsocks"
@@ -231,6 +232,12 @@ func runUDP(rc *RunCtx, which string) {
 		m.Inner = newPromMetrics(rc)
 		if F.Draw(3) == 1 {
 			w.UDPWriteErrBound = []int{100, 400}[F.Draw(2)] // replies to the client fail now and then
+		}
+		if F.Draw(4) == 1 {
+			w.UDPWriteErr = []int{100, 400}[F.Draw(2)] // forwards to the target fail now and then
+		}
+		if F.Draw(4) == 1 {
+			w.UDPSockErr = []int{200, 600}[F.Draw(2)] // outbound sockets cannot always be created
 		}
 	}
 	nL := 1
@@ -476,6 +483,37 @@ func (r *udpRun) check(which string) {
 	for _, ls := range srv.Socks {
 		allReads = append(allReads, ls.ReadLog...) // one natmap per Handle call; a client uses one listener
 	}
+	// forward attempts per client datagram, successful or failed (injected
+	// ENETUNREACH), in the order they were made
+	specOf := func(d *simnet.DgramRec) *uSpec {
+		if id := idOf(d.Payload); id != "" {
+			return r.specs[id]
+		}
+		if len(d.Payload) == 0 {
+			return r.emptyByPort[d.To.Port]
+		}
+		return nil
+	}
+	attempts := map[*uSpec][]*simnet.DgramRec{}
+	for _, d := range w.Dgrams {
+		if !d.FromSock.Foreign && !srv.isListen(d.FromSock) {
+			if s := specOf(d); s != nil {
+				attempts[s] = append(attempts[s], d)
+			}
+		}
+	}
+	for _, d := range w.WriteFails {
+		if !srv.isListen(d.FromSock) {
+			if s := specOf(d); s != nil {
+				attempts[s] = append(attempts[s], d)
+			}
+		}
+	}
+	for _, l := range attempts {
+		sort.SliceStable(l, func(i, j int) bool { return l[i].ESeq < l[j].ESeq })
+	}
+	nOK := map[*uSpec]int{}
+	sockAttempt := 0
 	for _, rec := range allReads {
 		s := byRec[rec]
 		if s == nil {
@@ -491,6 +529,11 @@ func (r *udpRun) check(which string) {
 			}
 			if !s.addrOK || !s.destOK {
 				continue // authenticated but not forwardable: no association
+			}
+			sockAttempt++
+			if sockAttempt <= len(w.SockAttempts) && !w.SockAttempts[sockAttempt-1] {
+				simrt.Probe("association_not_created_socket_error")
+				continue // the outbound socket could not be created: no association, no report
 			}
 			a = &assoc{client: s.client, key: s.key, created: s}
 			nat[ca] = a
@@ -510,8 +553,15 @@ func (r *udpRun) check(which string) {
 		}
 		c := UCall{Kind: "fromclient", Status: status, A: int64(len(s.wire))}
 		if status == "OK" {
-			expFwd[s]++
-			c.B = int64(len(s.payload))
+			k := nOK[s]
+			nOK[s]++
+			if at := attempts[s]; k < len(at) && at[k].Fate == "write-error" {
+				c.Status = "ERR_WRITE"
+				simrt.Probe("forward_failed_write_error")
+			} else {
+				expFwd[s]++
+				c.B = int64(len(s.payload))
+			}
 		}
 		a.fromClient = append(a.fromClient, c)
 	}
